@@ -625,6 +625,17 @@ def check_wellformed(sys, pre="wf."):
                                         objs[b]._params["name"], kind[b]))
     if not any(kind[i] == "Source" for i in idx):
         raise Fail(pre + "no_source", "no Source left")
+    # the PMux's declared input order must name exactly its parents (each link of the mux
+    # is one add_comp made from that list)
+    for i in idx:
+        if kind[i] == "PMux":
+            plist = list(attrs["pnames"].get(i, []))
+            preds = sorted(objs[p]._params["name"] for p in g.predecessor_indices(i))
+            if sorted(plist) != preds:
+                raise Fail(pre + "mux_inputs", "PMux {!r}: declared inputs {} but its parents "
+                           "are {}".format(objs[i]._params["name"], plist, preds))
+    if st_ != "ok":
+        raise Fail(pre + "save_raises", "save() on the edited system raised {}".format(doc))
     # the same facts through the public save() document
     if st_ == "ok":
         top = [k for k in doc if k != "system"]
